@@ -1,5 +1,6 @@
 import Rl4co.Core.Proto
 import Rl4co.Env.Cvrp
+import Rl4co.Env.CvrpGen
 import Rl4co.Spec.Cvrp
 namespace Rl4co.Driver.Cvrp
 open Rl4co.Proto
@@ -12,7 +13,10 @@ def episode (toks : List String) : Option String := do
   let i : Rl4co.Cvrp.Inst := { n := n, cap := cap, demand := fn1From1 dem, D := fn2 (n + 1) dm }
   let as := toNats acts
   let tr := episodeTrace Rl4co.Cvrp.env i as
-  pure s!"{tr} reward={Rl4co.Cvrp.reward i as} check={bit (Rl4co.Cvrp.check i tol as)} feas={bit (Rl4co.Spec.Cvrp.feasible i as)} obj={Rl4co.Spec.Cvrp.objective i as}"
+  -- the environment regenerated from the source (Generated/CvrpRow.lean), same actions
+  let gtr := ((episodeTrace Rl4co.Cvrp.Gen.GenEnv i as).replace "masks=" "genmasks=").replace " done=" " gendone="
+  let gtr := gtr.replace " adm=" " genadm="
+  pure s!"{tr} {gtr} reward={Rl4co.Cvrp.reward i as} check={bit (Rl4co.Cvrp.check i tol as)} feas={bit (Rl4co.Spec.Cvrp.feasible i as)} obj={Rl4co.Spec.Cvrp.objective i as}"
 
 /-- `cvrp.check …` same arguments; only the checker / spec verdicts (arbitrary action lists). -/
 def check (toks : List String) : Option String := do
